@@ -1,4 +1,7 @@
-import PV.C20.Lemmas.ConsStyle
+import PV.C20.Model
+import PV.C20.Spec
+import PV.C20.Domain
+import PV.C20.Lemmas.Basic
 /-! C20 helper lemmas — field names: `takeName` = CPython's scan, `usize::from_str` = `get_integer` inside the domain. -/
 namespace PV.C20
 open Model Spec
